@@ -226,6 +226,25 @@ def run_storage(ctx, rt, *, prop, invariants, properties, view, mc, profiles, no
                 rt.log("TOOL-ERROR: TLC did not complete on %s (rc=%s, states=%s)" % (cfg, r["rc"], r["states"]))
                 rt.log(r["out"][-1500:])
                 return 2
+        # every listed finding must be REACHABLE in the as-built model (a witness; otherwise its excuse would be vacuous there)
+        if tier == "thorough":
+            flags = {f.get("dev") for f in _known(rt)}
+            for flag, cfg in WITNESS:
+                if flag not in flags:
+                    continue
+                tmp = "MC_w_%d_%s.cfg" % (os.getpid(), flag)
+                base = open(os.path.join(rt.SPEC, cfg)).read()
+                open(os.path.join(rt.SPEC, tmp), "w").write(base.replace("INVARIANT TypeInv", "INVARIANT TypeInv\nINVARIANT W_%s" % flag))
+                try:
+                    r = rt.tlc_mc("MCStorage.tla", tmp, workers=8, timeout=600)
+                finally:
+                    os.remove(os.path.join(rt.SPEC, tmp))
+                ok = ("W_" + flag) in r["violated"]
+                mc_runs.append({"cfg": cfg, "witness_for": flag, "reached": ok, "states": r["states"]})
+                if not ok:
+                    rt.log("TOOL-ERROR: finding %s is not reachable in the as-built model %s (no witness)" % (flag, cfg))
+                    rt.log(r["out"][-1500:])
+                    return 2
     # ---------------------------------------------------------------- (B)+(C) real executions validated against the spec
     traces_dir = os.path.join(rt.OUT, "traces")
     os.makedirs(traces_dir, exist_ok=True)
@@ -242,6 +261,8 @@ def run_storage(ctx, rt, *, prop, invariants, properties, view, mc, profiles, no
     unexplained = []
     for pi, prof in enumerate(plist):
         prof = dict(prof)
+        if os.environ.get("VERIF_NO_DIRECTED"):   # experiments only: how much do the random drivers find on their own
+            prof["directed"] = 0
         backends = prof.pop("backends", "mem,sql").split(",")
         if replay:
             backends = [replay["backend"]]
@@ -322,7 +343,8 @@ def run_storage(ctx, rt, *, prop, invariants, properties, view, mc, profiles, no
                             "histories_differing_without_listed_deviation": diff_total[3], "examples": unexplained[:10],
                             "note": "direct comparison of the two backends' recorded lines (sanity only; wall-clock fields masked). A difference "
                                     "outside a history in which TLC needed a listed deviation can only come from a choice the contract leaves open "
-                                    "(which matching epoch find_message_epoch_by_tag_content returns)"},
+                                    "(which matching epoch find_message_epoch_by_tag_content returns) or from snapshot ages: the two runs see different "
+                                    "wall-clock seconds, so prune-by-age may select different snapshots"},
            "deviations_needed": sorted("%s/%s" % x for x in known_seen),
            "exhaustive": False, "profiles": plist}
     rt.write_evidence(pid, tier, seed, "model_checking", cov, wall, len(viol), ASSUME)
@@ -338,6 +360,12 @@ def run_storage(ctx, rt, *, prop, invariants, properties, view, mc, profiles, no
            "backends differ in %d histories (%d of them without a listed deviation); %.0fs"
            % (pid, tier, states, transitions, len(mc_runs), nh, len(distinct), len(nontriv), events, diff_total[2], diff_total[3], wall))
     return 0
+
+
+WITNESS = [("SqlRetakeFails", "MC_storage_snap_sql.cfg"), ("SqlSnapshotNeedsGroupRow", "MC_storage_snap_sql.cfg"),
+           ("SqlPruneCountsRows", "MC_storage_snap_sql.cfg"), ("SqlRestoreReordersLeaves", "MC_storage_mls_sql.cfg"),
+           ("SqlOffsetWraps", "MC_storage_reads_sql.cfg"), ("SqlLikeIgnoresCase", "MC_storage_reads_sql.cfg"),
+           ("MemRollbackStealsNostrId", "MC_storage_snap_mem.cfg"), ("MemOffsetOverflows", "MC_storage_reads_mem.cfg")]
 
 
 def _mc(names, to=300):
@@ -365,8 +393,8 @@ MC_C18 = {"quick": _mc(["MC_storage_msgs.cfg", "MC_storage_reads.cfg", "MC_stora
 def plan_C09(ctx, rt):
     profiles = {"quick": [dict(n=45, steps=40, profile="snap", ng=3, directed=1, sleeps=1),
                           dict(n=25, steps=50, profile="snap", ng=4, directed=0)],
-                "thorough": [dict(n=250, steps=60, profile="snap", ng=[2, 3, 4][i % 3], directed=1 if i == 0 else 0, sleeps=1 if i == 0 else 0) for i in range(6)]
-                            + [dict(n=150, steps=60, profile="mixed", ng=3, directed=0)]}
+                "thorough": [dict(n=150, steps=60, profile="snap", ng=[2, 3, 4][i % 3], directed=1 if i == 0 else 0, sleeps=1 if i == 0 else 0) for i in range(6)]
+                            + [dict(n=100, steps=60, profile="mixed", ng=3, directed=0)]}
     return run_storage(ctx, rt, prop="C09", invariants=[], properties=["ActC09"], view="all", mc=MC_C09, profiles=profiles,
                        nontrivial=nt_rollback,
                        rule="directed scenarios (one per frame condition of Storage.tla) + seeded random op sequences over 1-4 groups, "
@@ -380,7 +408,7 @@ def plan_C10(ctx, rt):
     profiles = {"quick": [dict(n=45, steps=50, profile="mixed", ng=3, directed=1),
                           dict(n=20, steps=40, profile="msgs", ng=2, directed=0),
                           dict(n=12, steps=40, profile="msgs", ng=2, cap=3, directed=1, backends="mem")],
-                "thorough": [dict(n=250, steps=70, profile=["mixed", "msgs", "snap"][i % 3], ng=[3, 2, 4][i % 3], directed=1 if i == 0 else 0, sleeps=1 if i == 0 else 0) for i in range(8)]
+                "thorough": [dict(n=120, steps=70, profile=["mixed", "msgs", "snap"][i % 3], ng=[3, 2, 4][i % 3], directed=1 if i == 0 else 0, sleeps=1 if i == 0 else 0) for i in range(8)]
                             + [dict(n=100, steps=50, profile="msgs", ng=2, cap=3, directed=1, backends="mem")]}
     return run_storage(ctx, rt, prop="C10", invariants=["InvC10"], properties=["ActErrNoEffect"], view="all", mc=MC_C10, profiles=profiles,
                        nontrivial=nt_overwrite,
@@ -395,7 +423,7 @@ def plan_C10(ctx, rt):
 def plan_C18S(ctx, rt):
     profiles = {"quick": [dict(n=60, steps=40, profile="msgs", ng=2, directed=1),
                           dict(n=15, steps=40, profile="mixed", ng=3, directed=0)],
-                "thorough": [dict(n=300, steps=60, profile="msgs", ng=[2, 3][i % 2], directed=1 if i == 0 else 0) for i in range(6)]
+                "thorough": [dict(n=150, steps=60, profile="msgs", ng=[2, 3][i % 2], directed=1 if i == 0 else 0) for i in range(6)]
                             + [dict(n=100, steps=50, profile="msgs", ng=2, cap=3, directed=1, backends="mem")]}
     return run_storage(ctx, rt, prop="C18", invariants=["InvC18"], properties=[], view="C18", mc=MC_C18, profiles=profiles,
                        nontrivial=nt_ties,
